@@ -103,4 +103,15 @@ def opPfPrin (args : List SExp) : Option OpResult := do
     pure ⟨want, mustEqual "C11" "principal-helper-property-values" want⟩
   | _ => none
 
+/-- `pf.discover <cal|card> <principal> <homeSet> ( collections ) => <principal> <homeSet> ( collections )`: the
+    discovery chain of the real client against the real handler returns exactly the backend's paths (C12), whatever
+    the mount prefix and the characters of the segment names -/
+def opPfDiscover (args : List SExp) : Option OpResult := do
+  match args with
+  | [.atom _srv, .atom p, .atom hs, .list cs] =>
+    let cs ← cs.mapM (fun c => match c with | .atom a => some a | _ => none)
+    let want := s!"{p} {hs} {sxList cs}"
+    pure ⟨want, mustEqual "C12" "discovery-chain-does-not-return-the-backend-paths" want⟩
+  | _ => none
+
 end Driver
